@@ -535,8 +535,10 @@ pub fn finalize(property: &'static str, tier: &str, seed: u64, rec: &Recorder, m
         "wall_s": (wall * 1000.0).round() / 1000.0,
         "violations": n_viol,
     });
-    let _ = std::fs::create_dir_all("/verif/evidence");
-    std::fs::write(format!("/verif/evidence/{property}.json"), serde_json::to_string_pretty(&ev).unwrap()).expect("write evidence");
+    // GV_EVIDENCE_DIR redirects the evidence of exploratory background runs; registered commands never set it
+    let evdir = std::env::var("GV_EVIDENCE_DIR").unwrap_or_else(|_| "/verif/evidence".into());
+    let _ = std::fs::create_dir_all(&evdir);
+    std::fs::write(format!("{evdir}/{property}.json"), serde_json::to_string_pretty(&ev).unwrap()).expect("write evidence");
     let brief: Vec<String> = out
         .coverage
         .iter()
